@@ -9,7 +9,9 @@ TECH_SWEEP = "exhaustive bounded enumeration of inputs on the real code vs refer
 
 PLAN = {
     "C01": {
-        "quick": [S("hook-default"), S("hook-nosimd", tag="two-lookup-bmap", only="bmap"), S("hook-nosimd", tag="two-lookup-step", only="step")],
+        "quick": [S("hook-default"), S("hook-nosimd", tag="two-lookup-bmap", only="bmap"), S("hook-nosimd", tag="two-lookup-step", only="step"),
+                  # "the same length code": generated hashes at every boundary of the length-code table (C09's sections, hook injection)
+                  S("hook-default", tag="len-codes", check="C09", only="generated")],
         "thorough": [S("hook-default"), S("m3-none", tag="nosimd")],
     },
     "C02": {
@@ -61,7 +63,8 @@ PLAN = {
         "thorough": [S("hook-default")],
     },
     "C03": {
-        "quick": [S("hook-explore")],
+        # the chunking paths have an `unsafe`-feature variant of their own (pointer-based tail handling is a typical place)
+        "quick": [S("hook-explore"), S("hook-unsafe", tag="unsafe-splits", only="splits"), S("hook-unsafe", tag="unsafe-pieces", only="piece-thresholds")],
         "thorough": [S("hook-explore"), S("m3-none", tag="nosimd")],
     },
     "C11": {
@@ -114,7 +117,8 @@ PLAN = {
                   S("asan0-default", tag="asan0-c07", check="C07", only="agg-backends-lanes", env={"ASAN_OPTIONS": "detect_leaks=0"}),
                   S("asan0-default", tag="asan0-c14", check="C14", env={"ASAN_OPTIONS": "detect_leaks=0"}),
                   S("asan0-default", tag="asan0-c06", check="C06", only="slice-lengths", env={"ASAN_OPTIONS": "detect_leaks=0"}),S("hook-default"), S("hook-unsafe", tag="hook-unsafe"),
-                  S("asan-default", tag="asan-c02", check="C02", only="body-w", env={"ASAN_OPTIONS": "detect_leaks=0"}),
+                  S("asan-default", tag="asan-c02", check="C02", only="body-w1", env={"ASAN_OPTIONS": "detect_leaks=0"}),
+                  S("asan-default", tag="asan-c02w2", check="C02", only="body-w2", env={"ASAN_OPTIONS": "detect_leaks=0"}),
                   S("asan-default", tag="asan-c02f", check="C02", only="body-fill", env={"ASAN_OPTIONS": "detect_leaks=0"}),
                   S("asan-default", tag="asan-c07", check="C07", only="agg-backends", env={"ASAN_OPTIONS": "detect_leaks=0"}),
                   S("asan-default", tag="asan-c04", check="C04", env={"ASAN_OPTIONS": "detect_leaks=0"}),
